@@ -239,48 +239,57 @@ def _gen_conc(rng, api):
 
 
 def _gen_race(rng):
-    """rounds of: solo call | clear | two overlapping calls (read A, read B, wraps in either order)"""
-    fns = rng.choice([["net"], ["net"], ["disk"], ["net", "disk"]])
+    """rounds of: solo call | clear | two overlapping calls (read A, read B, wraps in either order); a third
+    thread may act between the reads and the wrap steps: cache_clear or a nowrap=False call"""
+    fns = rng.choice([["net"], ["net"], ["disk"], ["net", "disk"], ["net", "disk"]])
     kern = {}
     for fn in fns:
         pool = NET_NAMES if fn == "net" else DISK_NAMES
         kern[fn] = Kernel(rng, rng.sample(pool, rng.choice([1, 1, 2])), 8 if fn == "net" else 9, False,
                           p_vanish=rng.choice([0.0, 0.0, 0.15]), scale={2: 512, 3: 512} if fn == "disk" else None)
-    monotone = rng.random() < 0.6      # the kernel counters only ever go up
-    rounds, nread, overlap = [], {fn: 0 for fn in fns}, False
+    monotone = rng.random() < 0.5      # the kernel counters only ever go up
+    rounds, nread, overlap, midclear = [], {fn: 0 for fn in fns}, False, False
+
+    def mids(free):
+        out = []
+        for _ in range(rng.choice([0, 0, 1, 1, 2])):
+            c = rng.choice(free)
+            if rng.random() < 0.5:
+                out.append(["clear", c, rng.choice(fns)])
+            else:
+                fn = rng.choice(fns)
+                nread[fn] += 1
+                out.append(["call", c, fn, rng.random() < 0.7])
+        return out
     for _ in range(rng.randint(2, 6)):
         x = rng.random()
         if x < 0.1:
-            rounds.append(["clear", rng.randint(0, 1), rng.choice(fns)])
+            rounds.append(["clear", rng.randint(0, 2), rng.choice(fns)])
         elif x < 0.45:
+            t = rng.randint(0, 2)
             fn = rng.choice(fns)
             nread[fn] += 1
-            rounds.append(["solo", rng.randint(0, 1), fn, True, rng.random() < 0.9])
+            nw = rng.random() < 0.9
+            m = mids([u for u in range(3) if u != t])
+            midclear = midclear or (nw and any(x[0] == "clear" for x in m))
+            rounds.append(["solo", t, fn, True, nw, m])
         else:
-            a = rng.randint(0, 1)
+            a, b = rng.sample(range(3), 2)
             fa, fb = rng.choice(fns), rng.choice(fns)
             na, nb = rng.random() < 0.85, rng.random() < 0.85
             nread[fa] += 1
             nread[fb] += 1
             overlap = overlap or (na and nb)
-            rounds.append(["pair", a, fa, na, fb, nb, rng.choice(["ab", "ba"])])
+            m = mids([u for u in range(3) if u not in (a, b)])
+            midclear = midclear or ((na or nb) and any(x[0] == "clear" for x in m))
+            rounds.append(["pair", a, fa, na, fb, nb, rng.choice(["ab", "ba"]), b, m])
     kernel = {}
     for fn in fns:
         k = kern[fn]
-        seq = []
-        for _ in range(nread[fn]):
-            if monotone:
-                k.p_vanish = 0.0
-                snap = k.snapshot()
-                for key in list(k.cur):
-                    k.cur[key] = [v + 1000 for v in k.cur[key]]      # next reading strictly above any backwards step
-                seq.append([[key, [max(v, 0) for v in vals]] for key, vals in snap])
-            else:
-                seq.append(k.snapshot())
-        kernel[fn] = seq
-    if monotone:
-        # make every counter non-decreasing along the read order
-        for fn in fns:
+        if monotone:
+            k.p_vanish = 0.0
+        kernel[fn] = [k.snapshot() for _ in range(nread[fn])]
+        if monotone:
             best = {}
             for snap in kernel[fn]:
                 for kv in snap:
@@ -288,7 +297,7 @@ def _gen_race(rng):
                     if b is not None:
                         kv[1] = [max(x, y) for x, y in zip(kv[1], b)]
                     best[kv[0]] = kv[1]
-    cls = "race-" + ("overlap" if overlap else "serial") + ("-monotone" if monotone else "")
+    cls = "race-" + ("overlap" if overlap else "serial") + ("-midclear" if midclear else "") + ("-monotone" if monotone else "")
     return {"kind": "race", "cls": cls, "rounds": rounds, "kernel": kernel}
 
 
@@ -298,6 +307,24 @@ RACE_WITNESS = {"kind": "race", "cls": "race-overlap-monotone",
                                    [["eth0", [0, 200, 0, 0, 0, 0, 0, 0]]], [["eth0", [0, 210, 0, 0, 0, 0, 0, 0]]]]}}
 
 
+def _mid_steps(m):
+    out = []
+    for x in m:
+        if x[0] == "clear":
+            out.append(("clear", x[1], x[2]))
+        else:
+            out += [("read", x[1], x[2], x[3], False), ("wrap", x[1])]
+    return out
+
+
+def _round_parts(r):
+    if r[0] == "solo":
+        return r[1], (r[5] if len(r) > 5 else [])
+    _, a, fa, na, fb, nb, order = r[:7]
+    b = r[7] if len(r) > 7 else 1 - a
+    return (a, fa, na, b, fb, nb, order), (r[8] if len(r) > 8 else [])
+
+
 def _race_steps(case, locked):
     """the schedule as realised: list of ('read', tid, fn, per, nowrap) / ('wrap', tid) / ('clear', tid, fn)"""
     out = []
@@ -305,15 +332,15 @@ def _race_steps(case, locked):
         if r[0] == "clear":
             out.append(("clear", r[1], r[2]))
         elif r[0] == "solo":
-            out += [("read", r[1], r[2], r[3], r[4]), ("wrap", r[1])]
+            t, m = _round_parts(r)
+            out += [("read", t, r[2], r[3], r[4])] + _mid_steps(m) + [("wrap", t)]
         else:
-            _, a, fa, na, fb, nb, order = r
-            b = 1 - a
+            (a, fa, na, b, fb, nb, order), m = _round_parts(r)
             ra, rb = ("read", a, fa, True, na), ("read", b, fb, True, nb)
             if locked and na and nb:
-                out += [ra, ("wrap", a), rb, ("wrap", b)]       # B's read waits for A's lock
+                out += [ra] + _mid_steps(m) + [("wrap", a), rb, ("wrap", b)]       # b's read waits for a's lock
             else:
-                out += [ra, rb] + ([("wrap", a), ("wrap", b)] if order == "ab" else [("wrap", b), ("wrap", a)])
+                out += [ra, rb] + _mid_steps(m) + ([("wrap", a), ("wrap", b)] if order == "ab" else [("wrap", b), ("wrap", a)])
     return out
 
 
@@ -325,12 +352,12 @@ def _race_term(case, locked):
             _, tid, fn, per, nowrap = st
             raw = case["kernel"][fn][nxt[fn]]
             nxt[fn] += 1
-            steps.append("CRead %s %s %s %s %s" % (G.bo(tid), {"net": "Net", "disk": "Disk"}[fn], G.bo(per), G.bo(nowrap), _gdict(raw)))
+            steps.append("CRead %s %s %s %s %s" % (G.nat(tid), {"net": "Net", "disk": "Disk"}[fn], G.bo(per), G.bo(nowrap), _gdict(raw)))
         elif st[0] == "wrap":
-            steps.append("CWrap %s" % G.bo(st[1]))
+            steps.append("CWrap %s" % G.nat(st[1]))
         else:
-            steps.append("CClear %s %s" % (G.bo(st[1]), {"net": "Net", "disk": "Disk"}[st[2]]))
-    return "run_race %s" % G.lst(steps)
+            steps.append("CClear %s %s" % (G.nat(st[1]), {"net": "Net", "disk": "Disk"}[st[2]]))
+    return "run_sched %s" % G.lst(steps)
 
 
 def _enum(nkeys, readings, maxlen):
@@ -433,29 +460,34 @@ def coq_term(case):
     ops = _ops_of(case)
     if _is_pub(case):
         return "run_pub %s %s" % (G.bo(LEGACY_EMPTY), G.lst([_pop(o) for o in ops]))
-    ws = G.lst(["(%s, %s)" % (G.by(k), G.nat(v)) for k, v in sorted(case["widths"].items())])
-    return "run_wn %s %s" % (ws, G.lst([_wop(o) for o in ops]))
+    return "run_wn %s" % G.lst([_wop(o) for o in ops])
 
 
 def _canon_info(info):
     """cache_info of the model (outcome of a list of per-name entries) -> sorted canonical form"""
     if not (isinstance(info, dict) and info.get("t") == "Val"):
         return None
+    cm, rm, km = [dict((n["b"], v) for n, v in m) for m in info["a"][0]]
     out = []
-    for name, cache, rem, rk in info["a"][0]:
-        out.append([name, sorted(cache, key=lambda kv: kv[0]["b"]), sorted(rem, key=lambda x: (x[0]["b"], x[1])),
-                    sorted([[k, sorted(l)] for k, l in rk], key=lambda x: x[0]["b"])])
+    for nb in sorted(set(cm) | set(rm) | set(km)):
+        if not (nb in cm and nb in rm and nb in km):
+            out.append([{"b": nb}, T("InconsistentMaps", nb in cm, nb in rm, nb in km)])
+            continue
+        out.append([{"b": nb}, sorted(cm[nb], key=lambda kv: kv[0]["b"]), sorted(rm[nb], key=lambda x: (x[0]["b"], x[1])),
+                    sorted([[k, sorted(l)] for k, l in km[nb]], key=lambda x: x[0]["b"])])
     return sorted(out, key=lambda e: e[0]["b"])
 
 
 def coq_struct(case, raw):
     if case["kind"] == "race":
-        # raw[i] = [model answers, demanded answers, lock_ok] for the schedule as scripted (0) / as realised under the lock (1)
-        assert raw[1][2] is True, "the lock-respecting realisation must satisfy lock_ok"
+        # raw[i] = [model answers, sequential spec on the linearisation, read-time demanded answers, lock_ok]
+        # for the schedule as scripted (0) / as realised under the lock (1)
+        assert raw[1][3] is True, "the lock-respecting realisation must satisfy lock_ok"
         same = _race_steps(case, False) == _race_steps(case, True)
         rec = raw[1] if (LOCKED and not same) else raw[0]
         return {"model": [T("Realised", "locked" if (LOCKED and not same) else "scripted"), rec[0]],
-                "spec": {"scripted": raw[0][1], "locked": raw[1][1]}, "scripted_lock_ok": raw[0][2]}
+                "spec": {"scripted": {"lin": raw[0][1], "rt": raw[0][2], "lock_ok": raw[0][3]},
+                         "locked": {"lin": raw[1][1], "rt": raw[1][2], "lock_ok": raw[1][3]}}}
     if _is_pub(case):
         return {"model": raw[0], "spec": raw[1]}
     if case["kind"] == "conc":
@@ -486,10 +518,15 @@ def judge(case, coq, impl):
         how = impl[0]["a"][0]
         if how not in coq["spec"]:
             return Verdict("corr", "the implementation realised neither the scripted nor the lock-respecting schedule: %s" % how)
-        want = coq["spec"][how]
-        if want is not None and impl[1] != want:
+        sp = coq["spec"][how]
+        # admissible: the answers of a linearisation that keeps the nowrap=True listings in read order (guaranteed by
+        # C10_threads_locked_kernel_order when the realised schedule respects the lock), or the read-time answers
+        ok_lin = sp["lock_ok"] is True and sp["lin"] is not None and impl[1] == sp["lin"]
+        ok_rt = sp["rt"] is not None and impl[1] == sp["rt"]
+        if sp["rt"] is not None and not (ok_lin or ok_rt):
+            want = sp["lin"] if sp["lock_ok"] is True else sp["rt"]
             j = next((i for i, (a, b) in enumerate(zip(impl[1], want)) if a != b), min(len(impl[1]), len(want)))
-            return Verdict("violation", "two threads, schedule realised as %s: answer %d is %s, demanded (raw kernel readings in read order) %s" % (
+            return Verdict("violation", "threads, schedule realised as %s: answer %d is %s, demanded (raw kernel readings in read order) %s" % (
                 how, j, impl[1][j] if j < len(impl[1]) else None, want[j] if j < len(want) else None))
         if impl != coq["model"]:
             return Verdict("corr", "impl != model (%s)" % how)
@@ -638,9 +675,10 @@ def _run_race(psutil, case):
     mtx = threading.Lock()
     nxt = {fn: 0 for fn in case["kernel"]}
     log, answers = [], []
-    read_done = [threading.Event(), threading.Event()]
-    go = [threading.Event(), threading.Event()]
-    done = [threading.Event(), threading.Event()]
+    NT = 3
+    read_done = [threading.Event() for _ in range(NT)]
+    go = [threading.Event() for _ in range(NT)]
+    done = [threading.Event() for _ in range(NT)]
     tids = {}
 
     def fake(fn):
@@ -656,7 +694,7 @@ def _run_race(psutil, case):
             return {k: tuple(v) for k, v in snap}
         return f
 
-    qs = [queue.Queue(), queue.Queue()]
+    qs = [queue.Queue() for _ in range(NT)]
 
     def worker(tid):
         tids[threading.get_ident()] = tid
@@ -676,7 +714,7 @@ def _run_race(psutil, case):
             with mtx:
                 log.append(("clear" if job[0] == "clear" else "wrap", tid))
                 if r.get("t") == "Val":
-                    answers.append(T("Val", [bool(tid), r["a"][0]]))
+                    answers.append(T("Val", [tid, r["a"][0]]))
                 else:
                     answers.append(r)
             done[tid].set()
@@ -693,26 +731,40 @@ def _run_race(psutil, case):
 
     saved = (plat.net_io_counters, plat.disk_io_counters)
     plat.net_io_counters, plat.disk_io_counters = fake("net"), fake("disk")
-    th = [threading.Thread(target=worker, args=(i,), daemon=True) for i in range(2)]
+    th = [threading.Thread(target=worker, args=(i,), daemon=True) for i in range(NT)]
     for t in th:
         t.start()
+
+    def run_mids(m):
+        # a third thread acts while the calls of the round are in flight: cache_clear, or a complete nowrap=False call
+        for x in m:
+            if x[0] == "clear":
+                begin(x[1], ("clear", x[2]))
+                need(done[x[1]], "mid clear")
+            else:
+                begin(x[1], ("call", x[2], x[3], False))
+                need(read_done[x[1]], "mid read")
+                go[x[1]].set()
+                need(done[x[1]], "mid return")
     try:
         for r in case["rounds"]:
             if r[0] == "clear":
                 begin(r[1], ("clear", r[2]))
                 need(done[r[1]], "clear")
             elif r[0] == "solo":
-                begin(r[1], ("call", r[2], r[3], r[4]))
-                need(read_done[r[1]], "solo read")
-                go[r[1]].set()
-                need(done[r[1]], "solo return")
+                t, m = _round_parts(r)
+                begin(t, ("call", r[2], r[3], r[4]))
+                need(read_done[t], "solo read")
+                run_mids(m)
+                go[t].set()
+                need(done[t], "solo return")
             else:
-                _, a, fa, na, fb, nb, order = r
-                b = 1 - a
+                (a, fa, na, b, fb, nb, order), m = _round_parts(r)
                 begin(a, ("call", fa, True, na))
                 need(read_done[a], "first read of a pair")
                 begin(b, ("call", fb, True, nb))
                 blocked = not read_done[b].wait(0.3 if (na and nb) else 20)   # waits on a lock held by a?
+                run_mids(m)
                 for x in ((a, b) if order == "ab" else (b, a)):
                     go[x].set()
                     if x == b and blocked:
